@@ -32,8 +32,8 @@ type BlockAnswer struct {
 // FakeKafka is a scriptable stand-in for the Kafka client and brokers the cluster module talks to.
 // Every answer comes from the function fields; every call is recorded.
 type FakeKafka struct {
-	TopicsFn     func() ([]string, bool)                        // ok=false: error
-	PartitionsFn func(topic string) ([]int32, bool)             // ok=false: error
+	TopicsFn     func() ([]string, bool)                           // ok=false: error
+	PartitionsFn func(topic string) ([]int32, bool)                // ok=false: error
 	LeaderFn     func(topic string, partition int32) (int32, bool) // ok=false: error / no leader
 	OffsetsFn    func(broker int32, request []TopicPartition) ([]BlockAnswer, bool)
 	GroupsFn     func() (map[string]string, bool)
@@ -84,12 +84,12 @@ func (c *fakeClient) RefreshMetadata(...string) error {
 	c.k.mu.Unlock()
 	return nil
 }
-func (c *fakeClient) GetOffset(string, int32, int64) (int64, error)      { return 0, errFake }
-func (c *fakeClient) Coordinator(string) (helpers.SaramaBroker, error)   { return nil, errFake }
-func (c *fakeClient) RefreshCoordinator(string) error                    { return errFake }
-func (c *fakeClient) Close() error                                       { return nil }
-func (c *fakeClient) Closed() bool                                       { return false }
-func (c *fakeClient) NewConsumerFromClient() (sarama.Consumer, error)    { return nil, errFake }
+func (c *fakeClient) GetOffset(string, int32, int64) (int64, error)    { return 0, errFake }
+func (c *fakeClient) Coordinator(string) (helpers.SaramaBroker, error) { return nil, errFake }
+func (c *fakeClient) RefreshCoordinator(string) error                  { return errFake }
+func (c *fakeClient) Close() error                                     { return nil }
+func (c *fakeClient) Closed() bool                                     { return false }
+func (c *fakeClient) NewConsumerFromClient() (sarama.Consumer, error)  { return nil, errFake }
 func (c *fakeClient) ListConsumerGroups() (map[string]string, error) {
 	if c.k.GroupsFn == nil {
 		return nil, errFake
